@@ -471,12 +471,12 @@ def run(ctx):
         raise vlib.MachineryFailure(f"Gen_Cli wrote {len(rows)} configurations but MC_Cli has {n_init} initial states")
     _binding_selftest_b(ctx, passing)
     _binding_selftest_c(ctx, done)
-    _stage_rpc(ctx)
+    ctx.run_extension("Rpc", _stage_rpc, ctx)
     ev = next(e for e in done if e["op"] == "rt" and e["f"] == "hex" and e["g"] == "bin" and len(e["b"]) == 3)
     ctx.sample({"stage": "C", "event": {k: ev[k] for k in ("op", "f", "g", "b", "t1", "t2", "t3", "b2")}})
     # extension beyond the listed property (never a VIOLATION): what each subcommand computes, spec/CliCmd.tla
     from . import ext_clicmd
-    ext_clicmd.stage(ctx)
+    ctx.run_extension("CliCmd", ext_clicmd.stage, ctx)
 
 
 def replay(ctx, path):
